@@ -43,13 +43,16 @@ func genOp(t *rapid.T, label string, pwTag *int) opSpec {
 func genC10(t *rapid.T) schedCase {
 	c := schedCase{Mode: rapid.SampledFrom([]string{"", "local", "local", "local", "remote-ok", "remote-unreachable", "remote-stalled"}).Draw(t, "mode"),
 		Users: schedUsers}
-	if rapid.IntRange(0, 3).Draw(t, "hooks") == 0 {
+	switch rapid.IntRange(0, 5).Draw(t, "hooks") {
+	case 0:
 		c.Hooks = "HOOKS"
+	case 1, 2:
+		c.Hooks = "HOOKS-BAD" // plus entries that look eligible but cannot be started
 	}
 	tag := 0
 	rounds := rapid.IntRange(1, 3).Draw(t, "rounds")
 	for r := 0; r < rounds; r++ {
-		shape := rapid.SampledFrom([]string{"parked-mixed", "parked-updates-then-logins", "parked-updates-then-logins", "free", "parked-flood"}).Draw(t, "shape")
+		shape := rapid.SampledFrom([]string{"parked-mixed", "parked-updates-then-logins", "parked-updates-then-logins", "free", "parked-flood", "login-storm", "hook-pressure"}).Draw(t, "shape")
 		switch shape {
 		case "parked-mixed":
 			c.Steps = append(c.Steps, step{Kind: "park"})
@@ -84,6 +87,35 @@ func genC10(t *rapid.T) schedCase {
 				c.Steps = append(c.Steps, step{Kind: "launch", Op: &op})
 			}
 			c.Steps = append(c.Steps, step{Kind: "release"})
+		case "login-storm":
+			// many successful logins of upgradeable users: every internal upgrade queue / rate limiter gets saturated
+			parked := rapid.Bool().Draw(t, "stormparked")
+			if parked {
+				c.Steps = append(c.Steps, step{Kind: "park"})
+			}
+			for i, n := 0, rapid.IntRange(20, 70).Draw(t, "nstorm"); i < n; i++ {
+				u := rapid.SampledFrom([]string{"old1", "old2"}).Draw(t, "su")
+				op := opSpec{Kind: "auth", User: u, PW: u + "pw"}
+				c.Steps = append(c.Steps, step{Kind: "launch", Op: &op})
+				if parked && i%9 == 8 {
+					c.Steps = append(c.Steps, step{Kind: "release"}, step{Kind: "park"})
+				}
+			}
+			c.Steps = append(c.Steps, step{Kind: "release"})
+		case "hook-pressure":
+			// changes spread over several rate-limit intervals (hook rounds start), then a burst of changes larger than the notification buffer
+			for i, n := 0, rapid.IntRange(2, 7).Draw(t, "nrounds"); i < n; i++ {
+				for j, m := 0, rapid.IntRange(1, 3).Draw(t, "perround"); j < m; j++ {
+					op := opSpec{Kind: "setadmin", User: "cur1", Admin: (i+j)%2 == 0}
+					c.Steps = append(c.Steps, step{Kind: "launch", Op: &op})
+				}
+				c.Steps = append(c.Steps, step{Kind: "advance", D: time.Duration(rapid.SampledFrom([]int{5001, 5001, 7000, 61000}).Draw(t, "gap")) * time.Millisecond})
+			}
+			for i, n := 0, rapid.IntRange(30, 50).Draw(t, "nburst"); i < n; i++ {
+				tag++
+				op := opSpec{Kind: rapid.SampledFrom([]string{"setadmin", "update", "remove"}).Draw(t, "bk"), User: rapid.SampledFrom([]string{"cur1", "nosuch"}).Draw(t, "bu"), PW: fmt.Sprintf("n%d", tag), Admin: i%2 == 0}
+				c.Steps = append(c.Steps, step{Kind: "launch", Op: &op})
+			}
 		default:
 			for i, n := 0, rapid.IntRange(1, 12).Draw(t, "n"); i < n; i++ {
 				op := genOp(t, "", &tag)
@@ -103,10 +135,15 @@ func genC10(t *rapid.T) schedCase {
 var everyKind = []opSpec{{Kind: "check"}, {Kind: "auth", User: "root", PW: "x"}, {Kind: "add", User: "probe1", PW: "p"}, {Kind: "update", User: "probe1", PW: "q"},
 	{Kind: "setadmin", User: "probe1", Admin: true}, {Kind: "list"}, {Kind: "listfull"}, {Kind: "remove", User: "probe1"}}
 
-func mkHooksDir() (string, error) {
+func mkHooksDir(bad bool) (string, error) {
 	d, err := os.MkdirTemp("", "hooks-")
 	if err != nil {
 		return "", err
+	}
+	if bad {
+		os.Symlink(filepath.Join(d, "does-not-exist"), filepath.Join(d, "dangling"))
+		os.WriteFile(filepath.Join(d, "nointerp"), []byte("#!/no/such/interpreter\n"), 0o755)
+		os.WriteFile(filepath.Join(d, "failing"), []byte("#!/bin/sh\nexit 3\n"), 0o755)
 	}
 	return d, os.WriteFile(filepath.Join(d, "fast"), []byte("#!/bin/sh\nexit 0\n"), 0o755)
 }
@@ -115,15 +152,21 @@ const schedRepeat = 6
 
 // TestC10NoWedge: no generated schedule leaves a request unanswered.
 func TestC10NoWedge(t *testing.T) {
-	hooks, err := mkHooksDir()
-	if err != nil {
-		t.Fatalf("VERIF-INFRA %v", err)
+	hooks, err := mkHooksDir(false)
+	hooksBad, err2 := mkHooksDir(true)
+	if err != nil || err2 != nil {
+		t.Fatalf("VERIF-INFRA %v %v", err, err2)
 	}
 	defer os.RemoveAll(hooks)
+	defer os.RemoveAll(hooksBad)
 	rapid.Check(t, func(rt *rapid.T) {
 		c := genC10(rt)
-		if c.Hooks != "" {
+		switch c.Hooks {
+		case "HOOKS":
 			c.Hooks = hooks
+		case "HOOKS-BAD":
+			c.Hooks = hooksBad
+			vlib.Class("hooks:with-unstartable-entries")
 		}
 		if c.Mode == "local" && vlib.IsKnown("C10-local-upgrade-self-deadlock") {
 			vlib.Excluded("mode=local (known finding C10-local-upgrade-self-deadlock)")
